@@ -22,7 +22,7 @@ FAMILY = "Pedersen"
 PKG = "pedersen"
 TRACE = "PedersenTrace"
 TCFG = "PedersenTrace.cfg"
-DEV = [("C11-pedersen-stale-share", "PedersenTrace_dev.cfg")]
+DEV = []   # C11-pedersen-stale-share was repaired by a fix: commit in /repo; a fixed finding has no deviation
 PRIMES = [11, 13, 17, 31]
 
 RULE = ("Pedersen stage: schedules = one ceremony each: (n in 3..6, t in 2..n - below, at and above ceil(2n/3) -, V in 1..3) + the "
@@ -52,10 +52,11 @@ ASSUMPTIONS = [
     "C11-pedersen-stale-share until pending_fixes/C11-pedersen-stale-share.diff is applied (a re-delivery that fills the n-slot "
     "share channel of a slow node before its own push blocks that node forever: liveness, observation only, "
     "harness/pedersen/repro_test.go TestShareChannelFullHang; same repair)",
-    "Pedersen stage design check: exhaustive over all polynomials of two nodes (two of the third) for p=5,n=3,t=2,V=1 in canonical "
-    "order and over ALL interleavings for n=3, t in {2,3}, V=1 with two polynomials per node (quick); thorough adds all "
-    "polynomials for p=7 / t=3, V=2 in free order, n=4 (t=2,3; V<=2) eager; re-deliveries are stuttering steps under the required "
-    "behaviour; the code as written is checked without re-deliveries (holds) and with one (control: violates Agreement)",
+    "Pedersen stage design check (quick): all polynomials of two nodes (two of the third) for p=5,n=3,t=2,V=1 in canonical order, and "
+    "ALL interleavings of starts, deliveries and node steps (a node may be arbitrarily slow) for n=3, t in {2,3}, V in {1,2} with one "
+    "polynomial vector per node; thorough: all polynomials for p=7,t=2 and (two nodes) p=5,t=3; all interleavings with two polynomial "
+    "vectors per node; n=4 (t in {2,3}, V in {1,2}) with eager nodes; re-deliveries are stuttering steps under the required "
+    "behaviour; the code as written is checked without re-deliveries (holds) and with one (controls: Agreement violated / deadlock)",
 ]
 CONTROLS = [("PedersenMC_ctl_stale.cfg", "Agreement",
              "share messages untagged, de-duplicated per collection only (as coded) + one re-delivery: stale share taken for the next validator"),
@@ -462,6 +463,12 @@ def mutators():
             e["failed"], e["done"] = e["done"], []
             return t
 
+    def subset_omitted(t):
+        e = chk(t)
+        if e and len(e["subs"]) > 1:
+            del e["subs"][-1]
+            return t
+
     def check_dropped(t):
         i, e = find(t, "Check")
         if e:
@@ -480,7 +487,7 @@ def mutators():
             ("response bundle not sent when the last deal arrived", silent_response), ("response bundle sent before the last deal", early_response),
             ("share message attributed to the next validator", share_for_wrong_validator), ("node returned before its collection was complete", returns_early),
             ("a re-delivered message had an effect", redelivery_counts), ("delivered packet was never sent", never_sent),
-            ("RunDKG returned an error", node_failed), ("Check event dropped", check_dropped), ("a delivery event dropped", delivery_dropped)]
+            ("RunDKG returned an error", node_failed), ("a t-subset was not examined", subset_omitted), ("Check event dropped", check_dropped), ("a delivery event dropped", delivery_dropped)]
 
 
 # ----------------------------------------------------------------------------------------------
@@ -522,9 +529,9 @@ def stage(o, tier, seed):
     design_done = design_check_start(o, tier)
     try:
         g, _ = vlib.gen_schedules(o.pid, FAMILY, "PedersenGen", "PedersenGen_thorough.cfg" if thorough else "PedersenGen.cfg",
-                                  num=300 if thorough else 30, depth=500, seed=seed, limit=300 if thorough else 30)
+                                  num=200 if thorough else 30, depth=500, seed=seed, limit=200 if thorough else 30)
         gen = from_tlc(g, seed)
-        rnd = random_schedules(seed, 400 if thorough else 30) + corner_schedules(seed)
+        rnd = random_schedules(seed, 300 if thorough else 30) + corner_schedules(seed)
         kw = dict(chunk=40 if thorough else 5, exec_timeout=1500, tv_timeout=900, dev_cfgs=DEV)
         vlib.conformance(o, FAMILY, TRACE, TCFG, PKG, gen + rnd, tag="ped_main", **kw)
         nk = len(o.known)
